@@ -962,7 +962,7 @@ def gen_cases(tier, rng):
                             continue
                         cases.append({"op": "swt", "sci": sci, "wl": wl, "fh": list(fh), "y": _vals(rng, n), "X": _mkX(rng, n, nc, 1000)})
     # ---- (2) structured random, mostly valid, n up to 200
-    nr = 2000 if quick else 12000
+    nr = 2000 if quick else 30000
     for _ in range(nr):
         strategy = rng.choice(STRATEGIES)
         wl = min(int(rng.lognormvariate(1.0, 0.8)) + 1, 14)
@@ -1007,7 +1007,7 @@ def gen_cases(tier, rng):
         if rng.random() < 0.1 and isinstance(c["wl"], int):
             c["wl"] = "np%d" % c["wl"]
         cases.append(c)
-    nr = 150 if quick else 2000
+    nr = 150 if quick else 5000
     for _ in range(nr):
         wl = rng.randrange(1, 10)
         fh = sorted(rng.sample(range(1, 9), rng.choice([1, 2, 3])))
